@@ -15,3 +15,11 @@ package vm
 // (they pop in a loop): BuildList, BuildMap, BuildSet, BuildString, Call, Partial, LoadClosure, FromImport, Unpack are
 // listed as "loop".
 //@ scan[C04.vm.arm.effects] C04 armeffects (*VirtualMachine).eval: Nop=0 BinaryOp=-1 BinarySubscr=-1 CompareOp=-1 ContainsOp=-1 Copy=1 Defer=-1 Go=-1 False=1 True=1 Nil=1 ForIter=-1j/0/1/2 GetIter=0 Halt= Import=0 JumpBackward=0j JumpForward=0j Length=0 LoadAttr=0 LoadConst=1 LoadFast=1 LoadFree=1 LoadGlobal=1 MakeCell=1 PopJumpForwardIfFalse=-1/-1j PopJumpForwardIfTrue=-1/-1j PopTop=-1 Range=0 Receive=0 ReturnValue=0 Send=-2 Slice=-2 StoreAttr=-2 StoreFast=-1 StoreFree=-1 StoreGlobal=-1 StoreSubscr=-3 Swap=0 UnaryNegative=0 UnaryNot=0 BuildList=loop BuildMap=loop BuildSet=loop BuildString=loop Call=loop Partial=loop LoadClosure=loop FromImport=loop Unpack=loop
+
+// C15 / C01 / C16: the operators of the language are the operations of the object model - the arms of eval add nothing
+// of their own. `a < b`, `a == b`, ... ARE object.Compare (whose laws C15 proves), `a + b` IS object.BinaryOp (C01),
+// `x in c` IS Container.Contains (C15 / C16): the arm of each operator calls that function (plus fetch / pop / push) and
+// no other, so there is no second implementation of a comparison or an arithmetic operation inside the VM whose results
+// could differ (seed C15h added an int fast path to the CompareOp arm that took the sign of x - y: wrong for operands
+// more than 2^63-1 apart). Structural obligation over the SSA of eval (scan kind armcalls).
+//@ scan[C15.vm.operator.arms] C15,C01,C16 armcalls (*VirtualMachine).eval: CompareOp=Compare/fetch/pop/push BinaryOp=BinaryOp/fetch/pop/push ContainsOp=Contains/Not/Type/TypeErrorf/fetch/pop/push UnaryNot=IsTruthy/pop/push Length=Len/Type/TypeErrorf/pop/push BinarySubscr=GetItem/Type/TypeErrorf/Value/pop/push
